@@ -1,9 +1,57 @@
-(** Property C01 (placeholder while the proofs are being developed) *)
+(** Property C01 — Hazard Pointer SMR (cds::gc::HP, src/hp.cpp, cds/gc/hp.h).
+    "Under the Hazard Pointer scheme, with either scan strategy, an object passed to retire() is never given to its
+     disposer while a guard that already protected it when the reclamation pass began still protects it.  As a
+     result, a guard or guarded pointer obtained from an HP-based container always refers to a live object that has
+     not been disposed, until that guard is released."
+
+    Only statements here; the proofs are in LV.Proofs.Hp*.  Model: LV.Model.Hp (one [Act] per atomic access of
+    the C++ code, tied to the real code by step correspondence, checks/C01.py).  All theorems quantify over
+    - every configuration [c] (hazard count H, thread limit P, retired capacity R, classic / in-place scan,
+      number of client sources, loop fuel),
+    - every list of client programs [ths] (any number of threads, any operations: attach, detach, protect, assign,
+      clear, copy, publish/unlink+retire, retire, scan, touch; even and odd pointers),
+    - every schedule: [Conc.reach] is "some sequence of thread choices leads here".
+
+    Vocabulary (LV.Proofs.HpTrace): [slot_at tr r j] the content of hazard slot j of thread record r after the
+    trace [tr] (replay of the ghost events the model emits in the same atomic step as each slot store);
+    [held tr s r j p]: that slot held [p] at every step from index [s] to the end of [tr];
+    [last_sb tr t]: index of the last fetch_add that opened a scan of thread [t];
+    [cnt name p tr]: number of client events [name p]. *)
 From Coq Require Import ZArith List String.
-From LV Require Import Base.Conc Base.Events Model.Hp.
+From LV Require Import Base.Conc Base.Events Model.Hp Proofs.HpTrace Proofs.HpInv Proofs.HpProofs.
 Import ListNotations.
 Local Open Scope Z_scope.
+Local Open Scope string_scope.
 
-Example C01_runs :
-  snd (Hp.run_case [2;2;8;0;1;50] [[[1];[6;0;4];[3;0;0]]; [[1];[7;2];[6;0;0];[8]]] [] 1000) = true.
-Proof. vm_compute. reflexivity. Qed.
+(** First sentence.  If event number [d] of the trace is a disposer call on [p] made by thread [t], and [s] is the
+    step at which the scan it belongs to began, no hazard slot of any thread record held [p] at every step from
+    [s] to [d].  Both scan kinds; scans called from retire(), from HP::scan(), from help_scan and from
+    detach_thread included (they are all [Hp.scan]).
+    In-place scan: the client must not have retired an object twice before (see [C01_inplace_double_retire]). *)
+Theorem C01_no_dispose_while_guarded :
+  forall (c : cfgT) (ths : list (list op)) cf,
+    Conc.reach (Hp.init_cfg c ths) cf ->
+    forall d t p s,
+      nth_error (Conc.trace cf) d = Some (t, ev_dispose p) ->
+      last_sb (firstn d (Conc.trace cf)) t = Some s ->
+      (cInplace c = true -> retire_once (firstn d (Conc.trace cf))) ->
+      p <> 0 ->
+      forall r j, ~ held (firstn (S d) (Conc.trace cf)) s r j p.
+Proof. exact hp_no_dispose_while_guarded. Qed.
+Print Assumptions C01_no_dispose_while_guarded.
+
+(** non-vacuity: HP(2,2,8,classic).  Thread 0 publishes object 4 and protects it; thread 1 unlinks and retires it
+    and scans twice; thread 0 clears its guard between the two scans.  The first scan keeps the cell (its
+    [g_scan_end] event lists 4), the second one disposes it: event 61 is "dispose 4" by thread 1, in the scan
+    that began at event 52, after the first scan ended at event 45. *)
+Definition C01_example :=
+  Hp.run_case [2;2;8;0;1;50] [[[1];[6;0;4];[3;0;0];[5;0]]; [[1];[6;0;0];[8];[8]]]
+    (repeat 0%nat 10 ++ repeat 1%nat 19 ++ repeat 0%nat 4 ++ repeat 1%nat 40) 1000.
+
+Example C01_guarded_object_survives_then_is_disposed :
+  snd C01_example = true /\
+  nth_error (fst C01_example) 45 = Some (1%nat, ev_scan_end 1 [4]) /\
+  nth_error (fst C01_example) 61 = Some (1%nat, ev_dispose 4) /\
+  last_sb (firstn 61 (fst C01_example)) 1 = Some 52%nat /\
+  cnt "dispose" 4 (fst C01_example) = 1 /\ cnt "retire" 4 (fst C01_example) = 1.
+Proof. vm_compute. repeat split; reflexivity. Qed.
